@@ -62,6 +62,14 @@ def build(lens, lbs, slack):
     parent.data_length = (n0 + slack) * lbs
     parent.children[0].data_length = parent.data_length
     parent.children[1].data_length = parent.data_length
+    # the LAST child is a sub-directory (it sorts after regular files): its own '.' and '..' records; '..' carries the parent's length
+    sub = parent.children[-1]
+    if len(parent.children) > 3:
+        sub.isdir = True
+        sd, sdd = mkrec(b'\x00', 34, True), mkrec(b'\x01', 34, True)
+        sd.parent = sdd.parent = sub
+        sdd.data_length = parent.data_length
+        sub.children.extend([sd, sdd])
     return parent, n0
 
 
@@ -87,6 +95,9 @@ def inv_ok(parent, lbs):
     need = ref[-1][0]
     ok = ok & (parent.data_length >= need * lbs) & (parent.data_length % lbs == 0)
     ok = ok & (parent.children[0].data_length == parent.data_length)
+    for c in parent.children:
+        if c.isdir and len(c.children) > 1:
+            ok = ok & (c.children[1].data_length == parent.data_length)      # every sub-directory's '..' describes this directory
     return ok
 
 
@@ -117,7 +128,14 @@ def writer_ok(parent, lbs, extent):
     class Prog:
         def call(self, n):
             pass
-    iso._write_directory_records(VD(), out, Prog())
+    subs = [c for c in parent.children if c.isdir and len(c.children) > 1]
+    for c in subs:
+        c.isdir = False           # the writer lemma is about THIS directory's records: do not descend into the stub sub-directory
+    try:
+        iso._write_directory_records(VD(), out, Prog())
+    finally:
+        for c in subs:
+            c.isdir = True
     writes = out.log[2:]          # after the two path table records
     if len(writes) != len(parent.children):
         return False
